@@ -1,4 +1,5 @@
 """C01 - parsing and re-writing never raise: bad input becomes failed blocks."""
+import itertools
 import re
 
 import gens_split as G
@@ -8,7 +9,11 @@ ENGINE = "split"
 RULE = ("streams: T = all token sequences over the 14-token splitter alphabet up to length 4 (quick) / 5 (thorough) plus random "
         "longer ones; M = mutations of grammar documents; U = arbitrary code points (astral, NUL, surrogates, Unicode digits/letters "
         "in @types); S = size-scaled families (10^3..10^5 lines, blank/comment-only runs, deep nesting, unterminated blocks); "
-        "L = lexer cases (re.finditer on the mark regex read from the source vs Model/Lexer.v). distinct = distinct text; "
+        "L = lexer cases (re.finditer on the mark regex read from the source vs Model/Lexer.v); K = documents whose entry keys, "
+        "@string names and field names are RELATED (identical, differing only in letter case incl. Unicode case pairs, "
+        "normalisation forms, prefixes, reserved names), exhaustive over 8 small blocks up to length 3 plus random ones; "
+        "K-inc = the same documents fed in pieces through parse_string(text, library=lib), write_string after every step "
+        "(oracle only). distinct = distinct text; "
         "non-trivial = at least one failed block or >= 2 blocks")
 TRUSTED = ["oracle instance: str.lower restricted to ASCII for the @type text (others skipped for the model comparison, still run "
            "through parse_string/write_string for the no-raise oracle)",
@@ -51,7 +56,163 @@ def generate(rng, tier):
         r = rng.random()
         t = G.random_token_seq(rng, 4, 14) if r < 0.4 else (G.mutate(rng, rng.choice(docs)) if r < 0.8 else rng.choice(docs))
         cases.append({"stream": "P", "input": {"text": t, "pipe": 1}})
+    # K: blocks whose keys / names are related to each other (same, case variants, normal forms, prefixes)
+    for n in (1, 2, 3):
+        for tup in itertools.product(K_SMALL, repeat=n):
+            for sep in (("\n",) if n == 3 else ("\n", "")):
+                t = sep.join(tup)
+                cases.append({"stream": "K", "input": {"text": t}})
+                if n > 1:
+                    cases.append({"stream": "K-inc", "input": {"text": t, "texts": list(tup)}})
+            if n == 2:
+                cases.append({"stream": "P-K", "input": {"text": "\n".join(tup), "pipe": 1}})
+    for i in range(1200 if tier == "quick" else 30000):
+        blocks = related_blocks(rng)
+        t = "".join(blocks)
+        cases.append({"stream": "K", "input": {"text": t}})
+        if i % 3 == 0:
+            cases.append({"stream": "P-K", "input": {"text": t, "pipe": 1}})
+        if i % 2 == 0:
+            cases.append({"stream": "K-inc", "input": {"text": t, "texts": cut_pieces(rng, blocks)}})
     return cases
+
+
+# ------------------------------------------------------------------ K: related keys
+K_SMALL = ["@a{k,}", "@a{K,}", "@b{k, t = {x}, T = k}", "@a{K}", "@string{k = {v}}", "@string{K = \"w\"}", "@STRING{k = K}", "@a{kK, k = K # k}"]
+# bases: ASCII, digits/punctuation, reserved names, and letters whose case mappings are not 1:1 or not ASCII
+# (sharp s, dz digraph with a title-case form, dotted capital I, fi ligature, Kelvin sign, final sigma, combining accent)
+KEY_BASES = ["k", "key", "Knuth1984", "jan", "a.b", "x_1", "smith:2020", "ID", "entrytype", "i", "abc", "stra\u00dfe", "\u01c6x",
+             "\u0130x", "\ufb01le", "\u212a1", "\u00e9t\u00e9", "o\u03c3\u03c2", "e\u0301a", "\u0131d", "\u1e9e", "\u00b5m", "\u0434\u0430"]
+FIELD_BASES = ["title", "t", "month", "author", "ID", "ENTRYTYPE", "key", "\u00e9", "stra\u00dfe", "i"]
+K_SEPS = ["\n", "\n", "\n\n", " ", "", "\r\n", "\n% c\n"]
+# other blocks around them (\x01 = the key, \x02 = a variant of it): comments, failed blocks, blocks without a key
+K_OTHER = ["@comment{\x01}", "@preamble{\"\x01\"}", "stray \x01", "@a{\x01", "@a{\x01,, x}", "@string{\x01}", "@string{= {v}}", "@a{,}",
+           "@a{}", "@a{\x01 x = {1}}", "@a{\x01, x = {1} y = {2}}", "@string{\x01 = {v}, \x02 = {w}}"]
+
+
+def key_variant(rng, base):
+    import unicodedata
+    r = rng.randrange(16)
+    if r < 3:
+        return base
+    if r == 3:
+        return base.lower()
+    if r == 4:
+        return base.upper()
+    if r == 5:
+        return base.swapcase()
+    if r == 6:
+        return base.title()
+    if r == 7:
+        return base.capitalize()
+    if r == 8:
+        return base.casefold()
+    if r in (9, 10):                                  # the case of one letter flipped
+        i = rng.randrange(len(base))
+        return base[:i] + base[i].swapcase() + base[i + 1:]
+    if r == 11:
+        return unicodedata.normalize(rng.choice(["NFC", "NFD", "NFKC", "NFKD"]), base)
+    if r == 12:
+        return base.upper().lower()
+    if r == 13:
+        return base[:-1] if len(base) > 1 else base + base
+    if r == 14:
+        return base + rng.choice(["2", "a", "A", ".", "\u0307"])
+    return rng.choice(["x", "K", "k"]) + base
+
+
+def _k_value(rng, names):
+    r = rng.random()
+    if r < 0.3:
+        return "{" + rng.choice(["v", "", "The {T}itle", "a # b", "{v}", "\u00e9"]) + "}"
+    if r < 0.5:
+        return '"' + rng.choice(["w", "", "x {\"} y", "{w}"]) + '"'
+    if r < 0.6:
+        return rng.choice(["1984", "0", "12"])
+    ref = key_variant(rng, rng.choice(names))
+    if r < 0.85:
+        return ref
+    return ref + rng.choice([" # ", "#", " #\n"]) + (key_variant(rng, rng.choice(names)) if rng.random() < 0.5 else '"z"')
+
+
+def related_blocks(rng):
+    """list of source pieces (block text followed by its separator) whose keys are variants of one or two bases"""
+    bases = [rng.choice(KEY_BASES) for _ in range(rng.choice([1, 1, 1, 2]))]
+    fbases = [rng.choice(FIELD_BASES) for _ in range(rng.choice([1, 1, 2]))]
+    names = bases + ["jan"]
+    out = []
+    for _ in range(rng.randint(2, 6)):
+        r = rng.random()
+        key = key_variant(rng, rng.choice(bases))
+        if r < 0.55:
+            typ = rng.choice(["a", "book", "Article", "MISC", "string2", "comment_"])
+            w1, w2 = rng.choice(G.INNER_WS), rng.choice(G.INNER_WS)
+            nf = rng.randint(0, 3)
+            if nf == 0 and rng.random() < 0.4:
+                b = "@" + typ + "{" + w1 + key + w2 + "}"
+            else:
+                fs = [rng.choice(G.INNER_WS) + key_variant(rng, rng.choice(fbases)) + rng.choice([" = ", "="]) + _k_value(rng, names)
+                      for _ in range(nf)]
+                b = "@" + typ + "{" + w1 + key + w2 + "," + ",".join(fs) + rng.choice(["", ",", "\n", ",\n"]) + "}"
+        elif r < 0.9:
+            kw = rng.choice(["string", "String", "STRING"])
+            b = "@" + kw + rng.choice(G.HWS) + "{" + rng.choice(G.INNER_WS) + key + rng.choice(G.INNER_WS) + "=" + rng.choice(["", " "]) + _k_value(rng, names) + "}"
+        else:
+            b = rng.choice(K_OTHER).replace("\x01", key).replace("\x02", key_variant(rng, key))
+        out.append(b + rng.choice(K_SEPS))
+    return out
+
+
+def cut_pieces(rng, blocks):
+    """the document as a sequence of texts for incremental parsing: cut at block boundaries, sometimes a piece twice"""
+    pieces, cur = [], ""
+    for b in blocks:
+        cur += b
+        if rng.random() < 0.6:
+            pieces.append(cur)
+            cur = ""
+    if cur:
+        pieces.append(cur)
+    r = rng.random()
+    if r < 0.2:
+        pieces.append(rng.choice(pieces))               # the same text once more into the same library
+    elif r < 0.3:
+        pieces.reverse()
+    elif r < 0.4:
+        pieces.insert(rng.randrange(len(pieces) + 1), rng.choice(["", "\n", "@a{", "}", "@string{", "% only a comment"]))
+    return pieces
+
+
+def incremental(texts):
+    """C01 on parse_string(text, library=lib): one library filled by several calls, written after every call."""
+    import implutil, bibtexparser
+    from bibtexparser.library import Library
+    lib, expected = None, 0
+    outs = []
+    for i, t in enumerate(texts):
+        where = "step %d of %d (text %r)" % (i + 1, len(texts), t[:60])
+        s = SC.split_impl(t)
+        if s[0] == "exc":
+            return False, "parse_string(text, parse_stack=[]) raised %s at %s" % (s[2], where), outs
+        expected += len(s[1].blocks)
+        r = implutil.guarded(lambda: bibtexparser.parse_string(t) if lib is None else bibtexparser.parse_string(t, library=lib))
+        if r[0] == "exc":
+            return False, "parse_string(text, library=<library of the earlier texts>) raised %s at %s" % (r[2], where), outs
+        lib = r[1]
+        if not isinstance(lib, Library):
+            return False, "parse_string returned %s at %s" % (type(lib).__name__, where), outs
+        w = implutil.guarded(lambda: bibtexparser.write_string(lib))
+        if w[0] == "exc":
+            return False, "write_string raised %s at %s" % (w[2], where), outs
+        if not isinstance(w[1], str):
+            return False, "write_string returned %s at %s" % (type(w[1]).__name__, where), outs
+        outs.append(w[1])
+        for b in lib.failed_blocks:
+            if not isinstance(b.raw, str) or not isinstance(b.error, Exception):
+                return False, "failed block without raw text or error: %r at %s" % (b, where), outs
+        if len(lib.blocks) != expected:
+            return False, "the texts so far split into %d blocks, the library holds %d at %s" % (expected, len(lib.blocks), where), outs
+    return True, "", outs
 
 
 def _regex_from_source():
@@ -76,6 +237,11 @@ def impl(case):
         marks = [[m.start(), enc.enc_str(m.group(0))] for m in _RX.finditer("\n" + text)]
         return {"sx_in": [130, enc.enc_str(text)], "sx_out": implutil.r_ok(marks), "nontrivial": len(marks) > 1,
                 "key": "lex:" + text[:100], "tags": ["lexer"], "summary": "%d marks" % len(marks)}
+    if case["input"].get("texts") is not None:
+        texts = case["input"]["texts"]
+        ok, detail, outs = incremental(texts)
+        return {"sx_in": None, "sx_out": None, "oracle": {"ok": ok, "detail": detail}, "nontrivial": len(texts) > 1,
+                "key": "inc:" + "\x1e".join(texts)[:300], "tags": ["incremental"], "summary": repr(outs[-1:])[:160]}
     if case["input"].get("pipe"):
         w = implutil.guarded(lambda: bibtexparser.write_string(bibtexparser.parse_string(text)))
         rec = {"sx_in": [151, enc.enc_str(text)], "key": "pipe:" + (text if len(text) < 200 else str(hash(text))), "tags": ["pipeline"]}
@@ -123,4 +289,6 @@ def impl(case):
 
 
 def shrink(case):
+    if case["input"].get("texts") is not None:
+        return iter(())
     return SC.shrink_text(case)
